@@ -131,6 +131,12 @@ func VfC06_Parse() {
 	for k := range want {
 		attached := insts[k].(interface{ Type() types.Type }).Type()
 		vfAssert(hC06Attached[k], hC06Same(attached, want[k]))
+		// a result type that is derived from the operand types (not the operand
+		// type itself: select, insertelement and add return it) is a literal
+		// type: it carries no type name, whatever names the operand types have
+		if k != 3 && k != 5 && k != 6 {
+			vfAssert("C06.parse.derived-type-is-unnamed", attached.Name() == "")
+		}
 	}
 	// clear the cached types and let the IR library recompute them
 	insts[0].(*ir.InstICmp).Typ = nil
